@@ -4,6 +4,9 @@ correspond: for every exactly representable operator class and for random expres
   (depth <= 4) the implementation's matrices of A, A.H (and A.N, used by C04) are extracted with
   basis vectors and compared with the matrices the Lean model computes for `denote e`,
   `denote (adj e)`, `denote (normal e)`; plus A(x) == M x on Gaussian-integer x.
+proved (Lean): the adjoint algebra and, for every exactly representable leaf class except MatMul/RightMatMul, the
+  leaf pairing itself for all valid symbolic parameters (Props/C01Leaves.lean: `adj_denote_leaves`), so that for
+  trees over those classes <A x, y> = <x, A.H y> is a theorem about the model without a leaf hypothesis.
 search: the dot test <Ax,y> == <x,A.H y>, swapped shapes, A.H.H(x) == A(x) on the real objects,
   over all Linop classes, the MRI factories and random trees (exact on Gaussian integers where the
   arithmetic is exact, 1e-6 relative for FFT / NUFFT / wavelet / convolution leaves).
@@ -20,7 +23,8 @@ from harness import common
 from harness.translate import gen as G
 
 PROPERTY = "C01"
-LEAN_MODULES = ["SigpyVerif.Props.C01", "SigpyVerif.Lemmas.C01Block", "SigpyVerif.Props.C09"]
+LEAN_MODULES = ["SigpyVerif.Props.C01", "SigpyVerif.Lemmas.C01Block", "SigpyVerif.Props.C09",
+                "SigpyVerif.Lemmas.C01Index", "SigpyVerif.Props.C01Leaves", "SigpyVerif.Props.C01LeavesGen"]
 THEOREMS = ["SigpyVerif.C01." + t for t in [
     # algebra of entry lists (Props/C01.lean)
     "applyF_append", "applyF_compE", "applyF_conjE", "coo_adjoint", "isAdj_of_entries", "isAdj_comp", "isAdj_comp3",
@@ -30,6 +34,38 @@ THEOREMS = ["SigpyVerif.C01." + t for t in [
     "grid1_eq_swap_interp1", "grid2_eq_swap_interp2", "grid3_eq_swap_interp3",
     "a2b2_mem", "b2a2_mem", "b2a2_transpose_a2b2", "a2b3_mem", "b2a3_mem", "b2a3_transpose_a2b3",
     "a2b1_nodup", "b2a1_nodup", "b2a1_perm_swap_a2b1", "b2a2_perm_swap_a2b2", "b2a3_perm_swap_a2b3",
+    # index lemmas (Lemmas/C01Index.lean): allIdx enumerates the in-bounds multi-indices once, in row-major order;
+    # gathers along mutually inverse index maps are transposes; bridge from the C09 array functions to gathers
+    "mem_allIdx", "InB.length", "pyRange_nodup_idx", "nodup_flatMap_key_idx", "allIdx_nodup", "shapeProd_foldl",
+    "shapeProd_nil", "shapeProd_cons", "ravel_acc", "ravel_nil", "ravel_cons", "ravel_bounds", "fl_lt", "fl_cons",
+    "range_mul_flat", "pyRange0_eq", "allIdx_map_fl", "allIdx_length", "getD_map_allIdx", "allIdx_eq_nil",
+    "mem_graphL", "graphL_nodup", "gatherE_eq_graph", "gatherE_perm_swap", "labels_getD",
+    "labelE_eq_gatherE_nonneg", "labelE_eq_gatherE", "axmap_eq", "axmapFrom_nil", "axmapFrom_cons", "axmapFrom_inB",
+    "axmapFrom_comp", "axmapFrom_congr", "axmapFrom_id", "axmap_mem", "axmap_inverse", "axmap_comp", "axmap_congr",
+    "gatherE_axmap_perm", "getI_eq_getElem", "inB_iff_getI", "ext_getI", "permIdx_length", "getI_permIdx",
+    "permIdx_step", "gatherE_permIdx_perm", "removeAxes_eq", "rmFrom_cons", "bcast_cons", "getI_cons_succ",
+    "getI_cons_zero", "rm_bcast", "rm_prod", "bcast_self", "bshape_cons", "bshape_nil_iff", "bshape_spec",
+    "bshape_idem", "filterMap_single", "flatMap_singleton_of", "compE_along", "fl_inj", "inRangeE_id",
+    # leaf pairs proved at the entry level for all valid parameters (Props/C01Leaves.lean): Sum/Tile, Flip,
+    # Circshift, Down/Upsample, Resize, Transpose, Multiply
+    "applyF_perm", "isAdj_of_perm", "inRangeE_adjE", "isAdj_clip_of_perm", "adjE_adjE", "perm_adjE_symm",
+    "adjOK_of_perm", "normAxes_idem", "gatherE_some", "adjE_of_ones", "sum_leaf_adjoint", "tile_leaf_adjoint",
+    "flipφ_spec", "flip_entries", "flip_leaf_adjoint", "layAx_getD", "rollSrc_rollSrc", "rollSrc_zero",
+    "totφ_range", "rollφ_range", "layAx_step", "circ_fold", "layAx_id", "neg_fold", "circshift_eval",
+    "circshift_entries", "circshift_leaf_adjoint", "DSValid.lengths", "dsLen_nonneg", "sliceLens_eq",
+    "down_then_up", "up_then_down", "downsample_entries", "upsample_entries", "down_up_perm",
+    "downsample_leaf_adjoint", "upsample_leaf_adjoint", "resizeGo_cons", "resizeSrc_transpose", "resizeSrc1_inB",
+    "resizeSrc_inB", "resize_gather_perm", "shapeProd_ones", "expandShapes_swap", "expandShapes_prod",
+    "zipWith_default_swap", "default_shift_nonneg", "labelE_id", "resize_entries", "resize_leaf_adjoint",
+    "AxValid.perm", "AxValid.mem", "AxValid.idx", "AxValid.get", "transpose_pair", "transposeSem_some",
+    "transposeSem_valid", "revAx_valid", "getI_revAx", "revAx_K", "reverse_eq_revAx_map", "argsort_norm",
+    "argsort_K", "argsort_valid", "transpose_leaf_adjoint", "applyF_idE", "isAdj_idE_comp", "bshape_eq_zip",
+    "multiplySem_iff", "expand_pos", "expand_len", "expand_fst_of_len", "expand_snd_of_len", "multiplySumAxes_eq",
+    "saOf_contains", "saOf_norm", "getI_pos", "saOf_rm", "mulE_inRange", "multiply_leaf_adjoint",
+    # leaf pairs on the regenerated loop nests and the unconditional theorem (Props/C01LeavesGen.lean)
+    "updToEnt_swap", "updToEnt_adj", "interpEntries_grid", "interp_leaf_adjoint", "gridding_leaf_adjoint",
+    "a2b_b2a_entries", "b2a_a2b_entries", "numBlks_same", "updToEnt_perm", "a2b_leaf_adjoint", "b2a_leaf_adjoint",
+    "leafProved_adjOK", "adj_denote_leaves", "normal_gram_leaves",
 ]] + ["SigpyVerif.C09." + t for t in ["resize_transpose", "roll_inverse", "up_down_index", "b2a1_transpose_a2b1"]]
 
 MAXEL = 24  # largest input / output size of a generated operator
@@ -798,6 +834,11 @@ def correspond(ctx, which=("M", "MH")):
                 "the Lean model's matrix; distinct by protocol line; all cases are non-empty operators")
     ctx.assumptions += [
         "numpy slicing / roll / tile / sum / matmul / reshape / transpose contracts (exercised by the correspondence)",
+        "leaf pairing L.H = adjoint of L: proved in Lean for Identity, Reshape, Transpose, Resize, Flip, Circshift, "
+        "Downsample, Upsample, Sum, Tile, Slice, Embed, Multiply, ArrayToBlocks, BlocksToArray, Interpolate, Gridding "
+        "(adj_denote_leaves; validity side conditions: positive factors / strides / extents, 0 <= shift <= n, "
+        "non-negative explicit resize shifts, real embedding of the rational kernel weights); for MatMul and "
+        "RightMatMul the pairing is validated by the exact matrix correspondence only (hypothesis of adj_denote)",
         "FFT, NUFFT, Kaiser-Bessel interpolation, wavelet and convolution leaves are not in the Lean model: they are "
         "covered by the search oracle (dot test) only; their theorems belong to C05/C06/C07/C08/C10",
     ]
@@ -805,6 +846,10 @@ def correspond(ctx, which=("M", "MH")):
     quick = ctx.tier == "quick"
     neg_ok = probes()["neg_stack"]
     ctx.notes.append("parameter regions included in the random trees (probe of the current source): %s" % probes())
+    ctx.notes.append("the model (denote / adj) the leaf theorems are about is the one this correspondence compares with "
+                     "the implementation's matrices of A and A.H; block / interp loop nests and the length / shift "
+                     "formulas inside it are regenerated from the source (Gen.Block, Gen.Interp, Gen.LinopFormulas, "
+                     "Gen.UtilFormulas), so a changed loop bound, guard or formula breaks the leaf theorem that uses it")
     sweep = class_sweep(rng, 14 if quick else 60)
     bad = run_corr(ctx, sweep, "classes", which)
     ctx.oblige("correspondence:%s.classes" % ctx.prop, "correspondence", bad == 0, "%d disagreements" % bad)
